@@ -25,7 +25,7 @@ func init() { register("C15", checkC15) }
 
 func checkC15(p *Prog, r *Report) {
 	r.NotCov = append(r.NotCov,
-		"fairness counts over runs of plans and the 2^32 wrap of offset+index (numeric)",
+		"fairness counts over runs of plans; consecutive plans at the 2^32 boundary of the plan counter (numeric; the wrap within one traversal is decided)",
 		"concurrent behaviour beyond the copy-on-write / atomic discipline decided here")
 	c15PlanNext(p, r, "C15.plan-next")
 	c15PlanNew(p, r)
@@ -264,13 +264,37 @@ func c15PlanNew(p *Prog, r *Report) {
 		switch f {
 		case hostsF:
 			okSrc := false
-			for _, o := range origins(st.Val) {
-				if c, ok := o.(*ssa.Call); ok && callIsMethod(c, "sync/atomic", "Value", "Load") {
-					if lfa, ok := c.Call.Args[0].(*ssa.FieldAddr); ok && fieldOfAddr(lfa) == lbHosts {
-						okSrc = true
+			var isPublished func(v ssa.Value, depth int) bool
+			isPublished = func(v ssa.Value, depth int) bool {
+				for _, o := range origins(v) {
+					c, ok := o.(*ssa.Call)
+					if !ok {
+						continue
+					}
+					if callIsMethod(c, "sync/atomic", "Value", "Load") {
+						if lfa, ok := c.Call.Args[0].(*ssa.FieldAddr); ok && fieldOfAddr(lfa) == lbHosts {
+							return true
+						}
+					}
+					// an accessor that returns the published slice as it is
+					if callee := c.Call.StaticCallee(); callee != nil && p.InRepo(callee) && depth > 0 {
+						all, n := true, 0
+						eachInstr(callee, func(in ssa.Instruction) {
+							if ret, ok := in.(*ssa.Return); ok && len(ret.Results) == 1 {
+								n++
+								if !isPublished(ret.Results[0], depth-1) {
+									all = false
+								}
+							}
+						})
+						if all && n > 0 {
+							return true
+						}
 					}
 				}
+				return false
 			}
+			okSrc = isPublished(st.Val, 2)
 			if !okSrc {
 				bad = append(bad, p.Pos(st.Pos())+": plan hosts are not a snapshot of the published slice")
 			}
@@ -446,7 +470,40 @@ func c15Cow(p *Prog, r *Report, prefix string) {
 			}
 			for _, ct := range dominatingConds(c.Block()) {
 				bo, ok := ct.Cond.(*ssa.BinOp)
-				if !ok || !((bo.Op == token.EQL && ct.Truth) || (bo.Op == token.NEQ && !ct.Truth)) {
+				if !ok {
+					continue
+				}
+				// `i >= 0` with i the result of a helper that searches the list for the host's key
+				if sc, isCall := bo.X.(*ssa.Call); isCall && sc.Call.StaticCallee() != nil && isKeySearch(p, sc.Call.StaticCallee()) {
+					k, isK := constInt(bo.Y)
+					found := isK && ((bo.Op == token.GEQ && k == 0 && ct.Truth) || (bo.Op == token.LSS && k == 0 && !ct.Truth) ||
+						(bo.Op == token.NEQ && k == -1 && ct.Truth) || (bo.Op == token.EQL && k == -1 && !ct.Truth) || (bo.Op == token.GTR && k == -1 && ct.Truth))
+					if found {
+						guarded = true
+						// the published slice omits exactly the found index
+						okShape := false
+						for _, o := range origins(c.Common().Args[1]) {
+							if ap, ok := o.(*ssa.Call); ok {
+								if b, ok := ap.Call.Value.(*ssa.Builtin); ok && b.Name() == "append" {
+									lo, ok1 := ap.Call.Args[0].(*ssa.Slice)
+									hi, ok2 := ap.Call.Args[1].(*ssa.Slice)
+									if ok1 && ok2 && lo.Low == nil && lo.High == ssa.Value(sc) && hi.High == nil {
+										if add, ok := hi.Low.(*ssa.BinOp); ok && add.Op == token.ADD && add.X == ssa.Value(sc) {
+											if one, ok := constInt(add.Y); ok && one == 1 {
+												okShape = true
+											}
+										}
+									}
+								}
+							}
+						}
+						if !okShape {
+							rb = append(rb, p.Pos(c.Pos())+": Remove does not publish s[:i] ++ s[i+1:] for the matched index i")
+						}
+						continue
+					}
+				}
+				if !((bo.Op == token.EQL && ct.Truth) || (bo.Op == token.NEQ && !ct.Truth)) {
 					continue
 				}
 				xc, xok := bo.X.(*ssa.Call)
@@ -602,4 +659,46 @@ func c15Cow(p *Prog, r *Report, prefix string) {
 		ab = append(ab, fmt.Sprintf("only %d accesses found", nacc))
 	}
 	r.check(len(ab) == 0, atomicsRule, lb.Obj().Name()+".{index,hosts}", p.Pos(onEvent.Pos()), fmt.Sprintf("%d accesses", nacc), strings.Join(dedupe(ab), " || "))
+}
+
+// isKeySearch: fn searches a host list for a key: it returns an index of its list parameter only
+// under a `h.Key() == x.Key()` comparison on that element, and a negative constant otherwise.
+func isKeySearch(p *Prog, fn *ssa.Function) bool {
+	if fn == nil || fn.Blocks == nil || !p.InRepo(fn) || fn.Signature.Results().Len() != 1 {
+		return false
+	}
+	if b, ok := fn.Signature.Results().At(0).Type().Underlying().(*types.Basic); !ok || b.Info()&types.IsInteger == 0 {
+		return false
+	}
+	okAll, hits := true, 0
+	eachInstr(fn, func(in ssa.Instruction) {
+		ret, ok := in.(*ssa.Return)
+		if !ok {
+			return
+		}
+		if k, isK := constInt(ret.Results[0]); isK {
+			if k >= 0 {
+				okAll = false
+			}
+			return
+		}
+		under := false
+		for _, ct := range dominatingConds(ret.Block()) {
+			bo, ok := ct.Cond.(*ssa.BinOp)
+			if !ok || !((bo.Op == token.EQL && ct.Truth) || (bo.Op == token.NEQ && !ct.Truth)) {
+				continue
+			}
+			xc, xok := bo.X.(*ssa.Call)
+			yc, yok := bo.Y.(*ssa.Call)
+			if xok && yok && xc.Call.StaticCallee() != nil && yc.Call.StaticCallee() != nil && xc.Call.StaticCallee().Name() == "Key" && yc.Call.StaticCallee().Name() == "Key" {
+				under = true
+			}
+		}
+		if under {
+			hits++
+		} else {
+			okAll = false
+		}
+	})
+	return okAll && hits > 0
 }
